@@ -566,6 +566,11 @@ pub enum Api {
 
 pub fn classify(e: &RunError) -> String {
     let msg = format!("{e}");
+    // an error raised inside an If/Loop body (planning or validation of the nested run) is, for the
+    // parent run, a failing operator (RunError::kind() reports the innermost kind)
+    if msg.contains("subgraph error") {
+        return "err:op".into();
+    }
     match e.kind() {
         RunErrorKind::InvalidInput => "err:invalid-input".into(),
         RunErrorKind::NodeNotFound => "err:node-not-found".into(),
